@@ -3,8 +3,16 @@
 Writes selftest_report.json.  Not part of any check's exit code."""
 import os, sys, json, subprocess, tempfile, shutil, glob, re
 VERIF = os.path.dirname(os.path.dirname(os.path.abspath(__file__)))
+REAL_VERIF = VERIF
+def snapshot():
+    """SNAPSHOT: run against a frozen copy of the machinery so that editing /verif while a long self-test runs cannot disturb it"""
+    global VERIF
+    snap = tempfile.mkdtemp(prefix="verif_snap_")
+    subprocess.run(["rsync", "-a", "--exclude", "build", "--exclude", ".git", "--exclude", "seeded", "--exclude", "harmless", "--exclude", "evidence", "--exclude", "replays", REAL_VERIF + "/", snap + "/"], check=True)
+    VERIF = snap
+    return snap
 def run_one(sid, replay):
-    d = os.path.join(VERIF, "seeded", sid)
+    d = os.path.join(REAL_VERIF, "seeded", sid)
     meta = json.load(open(os.path.join(d, "meta.json")))
     pid = meta.get("property", sid.split("-")[0])
     tmp = tempfile.mkdtemp(prefix="st_")
@@ -29,14 +37,16 @@ def run_one(sid, replay):
         shutil.rmtree(tmp, ignore_errors=True)
 if __name__ == "__main__":
     replay = "--replay" in sys.argv
-    ids = [a for a in sys.argv[1:] if not a.startswith("--")] or sorted(x for x in os.listdir(os.path.join(VERIF, "seeded")) if x != "obsolete")
+    snap = None if "--live" in sys.argv else snapshot()
+    ids = [a for a in sys.argv[1:] if not a.startswith("--")] or sorted(x for x in os.listdir(os.path.join(REAL_VERIF, "seeded")) if x != "obsolete")
     from concurrent.futures import ThreadPoolExecutor
     with ThreadPoolExecutor(max_workers=3) as ex:
         res = list(ex.map(lambda s: run_one(s, replay), ids))
     for r in res:
         print("%-8s %-4s %-12s %s" % (r["id"], r["property"], r["outcome"] + ("+witness" if r.get("witness") else ""), (r.get("lines") or [""])[0][:150]))
     if len(ids) > 5:
-        json.dump({"results": res}, open(os.path.join(VERIF, "selftest_report.json"), "w"), indent=1)
+        json.dump({"results": res}, open(os.path.join(REAL_VERIF, "selftest_report.json"), "w"), indent=1)
     c = {}
     for r in res: c[r["outcome"]] = c.get(r["outcome"], 0) + 1
     print(c)
+    if snap: shutil.rmtree(snap, ignore_errors=True)
